@@ -17,6 +17,10 @@ pub const PROP: &str = "C05";
 pub enum Op {
     Sign { msg: Vec<u8>, stream: u64, norm_rejects: u8, compress_fails: u8 },
     Crash,
+    /// a second signer node (Falcon-512, its own key) living in the same process
+    /// restarts from its own disk and signs: state kept outside the key objects
+    /// would leak between the two nodes
+    Neighbour { reload: bool, msg: Vec<u8>, stream: u64 },
 }
 
 impl Op {
@@ -26,11 +30,17 @@ impl Op {
                 json!({"op": "sign", "msg_hex": hex(msg), "stream": stream, "norm_rejects": norm_rejects, "compress_fails": compress_fails})
             }
             Op::Crash => json!({"op": "crash"}),
+            Op::Neighbour { reload, msg, stream } => json!({"op": "neighbour", "reload": reload, "msg_hex": hex(msg), "stream": stream}),
         }
     }
     fn from_json(v: &Value) -> Option<Op> {
         match v.get("op")?.as_str()? {
             "crash" => Some(Op::Crash),
+            "neighbour" => Some(Op::Neighbour {
+                reload: v.get("reload")?.as_bool()?,
+                msg: unhex(v.get("msg_hex")?.as_str()?)?,
+                stream: v.get("stream")?.as_u64()?,
+            }),
             "sign" => Some(Op::Sign {
                 msg: unhex(v.get("msg_hex")?.as_str()?)?,
                 stream: v.get("stream")?.as_u64()?,
@@ -46,17 +56,21 @@ impl Op {
 pub struct Plan {
     pub n: usize,
     pub key_seed: [u8; 32],
+    /// seed of the neighbour node's key, if the plan has neighbour operations
+    pub other_seed: Option<[u8; 32]>,
     pub ops: Vec<Op>,
 }
 
 impl Plan {
     pub fn to_json(&self) -> Value {
-        json!({"kind": "lifecycle", "n": self.n, "key_seed_hex": hex(&self.key_seed), "ops": self.ops.iter().map(|o| o.to_json()).collect::<Vec<_>>()})
+        json!({"kind": "lifecycle", "n": self.n, "key_seed_hex": hex(&self.key_seed), "other_seed_hex": self.other_seed.map(|s| hex(&s)),
+               "ops": self.ops.iter().map(|o| o.to_json()).collect::<Vec<_>>()})
     }
     pub fn from_json(v: &Value) -> Option<Plan> {
         Some(Plan {
             n: v.get("n")?.as_u64()? as usize,
             key_seed: unhex(v.get("key_seed_hex")?.as_str()?)?.try_into().ok()?,
+            other_seed: v.get("other_seed_hex").and_then(|x| x.as_str()).and_then(unhex).and_then(|b| b.try_into().ok()),
             ops: v.get("ops")?.as_array()?.iter().map(Op::from_json).collect::<Option<Vec<_>>>()?,
         })
     }
@@ -86,7 +100,17 @@ impl Plan {
             norm_rejects: 0,
             compress_fails: 0,
         });
-        Plan { n, key_seed, ops }
+        // a quarter of the life-cycles share their process with a neighbour node
+        let mut other_seed = None;
+        if rng.chance(1, 4) {
+            other_seed = Some(rng.seed32());
+            let k = 1 + rng.usize_below(3);
+            for _ in 0..k {
+                let at = rng.usize_below(ops.len() + 1);
+                ops.insert(at, Op::Neighbour { reload: rng.chance(2, 3), msg: world::message(rng), stream: rng.next_u64() });
+            }
+        }
+        Plan { n, key_seed, other_seed, ops }
     }
 }
 
@@ -139,8 +163,47 @@ pub fn execute<V: Variant>(plan: &Plan) -> Outcome {
     }
     let mut live = sk;
     let mut restarts = 0u32;
+    // the neighbour node (generated only if the plan uses it)
+    let mut neighbour: Option<(<V512 as Variant>::Sk, <V512 as Variant>::Pk, Vec<u8>)> = None;
+    if let (Some(os), true) = (plan.other_seed, plan.ops.iter().any(|o| matches!(o, Op::Neighbour { .. }))) {
+        match world::keygen_sim::<V512>(os, None, None).0 {
+            Ok((nsk, npk)) => {
+                let disk2 = V512::sk_to_bytes(&nsk);
+                neighbour = Some((nsk, npk, disk2));
+            }
+            Err(u) => return fail(st, log, format!("keygen512 {} (neighbour node)", u.signature()), String::new()),
+        }
+    }
     for (i, op) in plan.ops.iter().enumerate() {
         match op {
+            Op::Neighbour { reload, msg, stream } => {
+                if let Some((nsk, npk, disk2)) = neighbour.as_mut() {
+                    st.inc("neighbour_ops");
+                    if *reload {
+                        match crate::guard::guarded(|| V512::sk_from_bytes(disk2)) {
+                            Ok(Ok(k)) => {
+                                if k != *nsk {
+                                    return fail(st, log, "reloaded secret key512 differs from the key that was serialised".to_string(), format!("neighbour node, op {}", i));
+                                }
+                                *nsk = k;
+                            }
+                            Ok(Err(e)) => return fail(st, log, format!("SecretKey512::from_bytes rejects bytes written by to_bytes ({})", e), format!("neighbour node, op {}", i)),
+                            Err(u) => return fail(st, log, format!("SecretKey512::from_bytes {} on bytes written by to_bytes", u.signature()), format!("neighbour node, op {}", i)),
+                        }
+                    }
+                    let (r, tr) = world::sign_sim::<V512>(nsk, msg, &SignPlan::uniform(*stream), None);
+                    st.steps += tr.draws;
+                    match r {
+                        Ok(sig) => match crate::guard::guarded(|| V512::verify(msg, &sig, npk)) {
+                            Ok(true) => {}
+                            Ok(false) => return fail(st, log, "signature512 made after restart does not verify under the originally published public key".to_string(), format!("neighbour node, op {}", i)),
+                            Err(u) => return fail(st, log, format!("verify512 {} on an honest signature", u.signature()), format!("neighbour node, op {}", i)),
+                        },
+                        Err(Unwind::NoProgress { .. }) => return fail(st, log, "sign512 makes no progress after restart".to_string(), format!("neighbour node, op {}", i)),
+                        Err(Unwind::Code { location, message }) => return fail(st, log, format!("sign512 unwinds at {} after restart", location), message),
+                    }
+                }
+            }
             Op::Crash => {
                 st.inc("fault.X1_crash");
                 // only the disk survives
@@ -247,6 +310,7 @@ fn minimise(plan: &Plan, class: &str) -> Plan {
         let p = Plan {
             n: plan.n,
             key_seed: plan.key_seed,
+            other_seed: plan.other_seed,
             ops,
         };
         if same(&p) {
@@ -373,7 +437,7 @@ pub fn check(tier: Tier, seed: u64) -> i32 {
     let total = ctx.pins.len() as u64 + ctx.n512 + ctx.n1024;
     let out = report::parallel_runs(total, w, |run| dispatch(&ctx, seed, run));
     rep.absorb(out);
-    rep.rule = "a case is one signer-node life-cycle for one key seed: keygen, publish pk bytes, persist sk bytes, then a seeded sequence of sign operations (some with buggify-forced retries) and 1-3 crashes; after a crash the node restarts from the bytes on the simulated disk only, and the verifier keeps the public-key bytes published before the first crash; all life-cycles are non-trivial (each restarts at least once and signs after the last restart); distinct = distinct (variant, key seed)".into();
+    rep.rule = "a case is one signer-node life-cycle for one key seed (a quarter of them with a second, Falcon-512 signer node living in the same process and restarting / signing in between): keygen, publish pk bytes, persist sk bytes, then a seeded sequence of sign operations (some with buggify-forced retries) and 1-3 crashes; after a crash the node restarts from the bytes on the simulated disk only, and the verifier keeps the public-key bytes published before the first crash; all life-cycles are non-trivial (each restarts at least once and signs after the last restart); distinct = distinct (variant, key seed)".into();
     rep.assumptions = vec![
         "disk and channel are fault-free in this configuration (a damaged store promises nothing; see C03/C06)".into(),
         "pinned key seeds in corpus/C05/seeds.txt are seeds that reached an unrepresentable coefficient during exploration of the pinned commit".into(),
